@@ -71,11 +71,13 @@ def run(ctx: core.Check):
     tr = toolrun.Trace()
     total = 0
     for label, same, reuse in (("same-plaintext/one-object", True, True), ("different-plaintext/one-object", False, True),
-                               ("same-plaintext/fresh-objects", True, False), ("different-plaintext/fresh-objects", False, False)):
+                               ("same-plaintext/fresh-objects", True, False), ("different-plaintext/fresh-objects", False, False),
+                               ("empty-and-one-byte-plaintexts/one-object", None, True)):
         h = History(tr, key, label)
         enc = mod.suit_encryptor_factory()
-        for i in range(n):
-            pt = b"constant firmware image" if same else b"firmware %d" % i
+        for i in range(n if same is not None else n // 5):
+            # the last history: zero-length and one-byte firmware (the published IV must still be the 12 bytes that were used)
+            pt = (b"", b"\x00", b"", b"x")[i % 4] if same is None else b"constant firmware image" if same else b"firmware %d" % i
             e = enc if reuse else mod.suit_encryptor_factory()
             payload, tag, info, digest, ln = e.encrypt_and_generate(pt, "fwenc", 7, str(d / "keys"), SuitDigestAlgorithms("sha-256"),
                                                                     SuitKWAlgorithms("direct"), kms)
